@@ -503,6 +503,20 @@ class Engine:
         elif isinstance(k, KTuple):
             for it in tuple_items(val):
                 self.assume_wellformed(st, it)
+        elif isinstance(k, KList) and val.term is not None and val.meta is None:
+            lo = ListOps(k)
+            t = val.term
+            ck = ('listwf', t.get_id(), st.nxt.get_id() if st.nxt is not None else 0)
+            if ck in self.uf_cache:
+                return
+            self.uf_cache[ck] = True
+            self.fact(st, lo.len(t) >= 0)
+            refs = self.ref_components(k.elem)
+            if refs and st.nxt is not None:
+                jj = z3.Int(fresh_name('lj'))
+                cs = [self.ref_wf(st, acc(lo.at(t, jj)), rk, st.nxt) for acc, rk in refs]
+                self.fact(st, Vm.forall([jj], z3.Implies(z3.And(jj >= 0, jj < lo.len(t)), z3.And(*cs)),
+                                        patterns=[lo.at(t, jj)]))
 
     def ref_components(self, kind):
         """Accessors of the reference-typed components of a value kind (Ref itself or Refs inside tuples)."""
@@ -524,6 +538,38 @@ class Engine:
         carr = self.heap_array(st, '$cls', KInt)
         st.heap['$cls'] = z3.Store(carr, a, z3.IntVal(self.cls_id(cls)))
         return ref
+
+    def alloc_block(self, st: State, cls, n, fields) -> V:
+        """Allocate `n` (symbolic) objects of class `cls` at consecutive addresses; fields: name -> function of
+        the index term giving the field's value.  Returns the list [obj_0, ..., obj_{n-1}]."""
+        base = st.nxt
+        self.fact(st, n >= 0)
+        nx = z3.Int(fresh_name('alloc'))
+        self.fact(st, nx == base + n)
+        st.nxt = nx
+        r, i = z3.Int(fresh_name('r')), z3.Int(fresh_name('i'))
+        lk = KList(KRef(cls))
+        lo = ListOps(lk)
+        out = z3.Const(fresh_name('blk'), lk.sort())
+        self.fact(st, lo.len(out) == n)
+        self.fact(st, Vm.forall([i], z3.Implies(z3.And(i >= 0, i < n), lo.at(out, i) == base + i), patterns=[lo.at(out, i)]))
+
+        def update(key, kind, value_of):
+            old = self.heap_array(st, key, kind)
+            new = z3.Const(fresh_name('H:' + key), old.sort())
+            self.fact(st, Vm.forall([r], z3.Implies(z3.Or(r < base, r >= nx), z3.Select(new, r) == z3.Select(old, r)),
+                                    patterns=[z3.Select(new, r)]))
+            self.fact(st, Vm.forall([i], z3.Implies(z3.And(i >= 0, i < n), z3.Select(new, base + i) == value_of(i)),
+                                    patterns=[z3.Select(new, base + i)]))
+            # (the same, addressed through the returned list: the form in which the elements are used)
+            self.fact(st, Vm.forall([i], z3.Implies(z3.And(i >= 0, i < n), z3.Select(new, lo.at(out, i)) == value_of(i)),
+                                    patterns=[z3.Select(new, lo.at(out, i))]))
+            st.heap[key] = new
+        update('$cls', KInt, lambda _i: z3.IntVal(self.cls_id(cls)))
+        for fname, fn in fields.items():
+            key, kind = self.field_decl(cls, fname)
+            update(key, kind, fn)
+        return V(lk, out)
 
     def class_of(self, st, obj: V):
         return z3.Select(self.heap_array(st, '$cls', KInt), obj.term)
@@ -1418,7 +1464,7 @@ class Engine:
 
     LIB_MUTATORS = {
         'fill_': ['Tensor.val'], 'transpose_': ['Tensor.val', 'Tensor.shape', 'Tensor.contig'],
-        'wait': ['Future.resolved'], 'set_result': ['Future.will_be'],
+        'wait': ['Future.resolved'], 'set_result': [],
         'register_forward_pre_hook': ['Module.fwd_hooks'], 'register_full_backward_hook': ['Module.bwd_hooks'],
         'all_reduce': ['Tensor.val', '$ghost:trace'], 'broadcast': ['Tensor.val', '$ghost:trace'],
         'barrier': ['$ghost:trace', '$ghost:barriers'], 'new_group': ['$ghost:trace', 'ProcessGroup.members'],
@@ -1775,7 +1821,7 @@ class Engine:
                 return b
             if isinstance(node, (ast.Constant, ast.Tuple, ast.Attribute, ast.Name, ast.Set)):
                 return self.eval(node, st)
-        b = self.B.lookup(name)
+        b = self.B.lookup(name) or self.B.lookup(f'{mod}.{name}')
         if b is not None:
             return b
         if self.spec_mode and name in self.repo.classes:
